@@ -1,8 +1,12 @@
-// C18 correspondence harness: the real mmo centre PlayerMgr hosted on a real
-// service.NodeService actor (local proto.actor system, no remote) inside a
-// testing/synctest bubble (virtual clock).  Front-ends ("gate-1", "gate-2") and
-// the logic server ("logic-1") are recording actors reached through the cluster
-// directory + an address resolver.  One op line in, one canonical observation out.
+// C18 correspondence harness: the real mmo centre service (servers/center/handler.Service: a
+// service.NodeService with the "center.remote" API dispatcher, started by StartServiceCmd as the
+// service builder does, owning the real PlayerMgr) on a local proto.actor system (no remote) inside a
+// testing/synctest bubble (virtual clock).  Every operation of the protocol is a real ServiceRequest
+// sent to the centre's remote API (routes centerremote.*, the ones gate and logic call); what comes
+// back (the ServiceResponse: login acknowledgement, NormalAck code) is what is observed, i.e. exactly
+// what gate and logic see.  Front-ends ("gate-1", "gate-2") and the logic server ("logic-1") are
+// recording actors reached through the cluster directory + an address resolver; "client-1" is the
+// recording actor the requests are sent from.  One op line in, one canonical observation out.
 package c18
 
 import (
@@ -28,8 +32,11 @@ import (
 
 	as "github.com/dfklegend/cell2/actorex/service"
 	messages "github.com/dfklegend/cell2/actorex/service/servicemsgs"
+	"github.com/dfklegend/cell2/apimapper/registry"
 	"github.com/dfklegend/cell2/node/app"
+	"github.com/dfklegend/cell2/node/builtin"
 	"github.com/dfklegend/cell2/node/cluster"
+	"github.com/dfklegend/cell2/node/config"
 	"github.com/dfklegend/cell2/node/service"
 	"github.com/dfklegend/cell2/utils/common"
 	"github.com/dfklegend/cell2/utils/logger"
@@ -39,14 +46,21 @@ import (
 	"mmo/common/define"
 	mymsg "mmo/messages"
 	"mmo/servers/center"
+	"mmo/servers/center/handler"
 )
 
 const nAccts = 3 // accounts 1..3 are printed in every observation
 
 // ---------------------------------------------------------------- engine
 
-type centerSvc struct {
-	*service.NodeService
+// reqInfo: what the harness remembers about a request it sent to the centre's remote API
+type reqInfo struct {
+	kind   string // op kind
+	uid    int64
+	k8     int    // login: per-account request number
+	n      uint32 // login: net id
+	caseNo int
+	nres   int // responses received so far
 }
 
 type pendingOff struct {
@@ -57,8 +71,9 @@ type pendingOff struct {
 
 type env struct {
 	system *actor.ActorSystem
-	svc    *centerSvc
+	svc    *handler.Service
 	pid    *actor.PID
+	client *actor.PID // the recording actor the requests are sent from
 	mgr    *center.PlayerMgr
 	t0     int64
 
@@ -66,7 +81,10 @@ type env struct {
 	kicks   []string      // "front:net" captured by the front peers during the current op
 	offs    []int64       // uids of offline requests captured during the current op
 	pending []*pendingOff // unanswered offline requests (FIFO)
-	acks    []string      // acknowledgements passed to login callbacks during the current op
+	acks    []string      // login acknowledgements (responses to reqlogin requests) received during the current op
+	ret     string        // what the centre answered to the current (non-login) request
+	reqs    map[int32]*reqInfo
+	nextReq int32
 	caseNo  int
 	seq     [nAccts + 2]int           // per-account login counter
 	open    [nAccts + 2]map[int]int64 // per account: login request -> issue time, while unanswered
@@ -145,7 +163,11 @@ func newEnv() *env {
 	logger.GetLogProxy("exception").SetLogLevel(logrus.PanicLevel)
 	log.SetOutput(io.Discard)
 
-	e := &env{pr: newProbe()}
+	handler.Visit()
+	builtin.Visit()
+	registry.Registry.Build()
+
+	e := &env{pr: newProbe(), reqs: map[int32]*reqInfo{}}
 	e.system = actor.NewActorSystem()
 	sys := e.system
 	sys.ProcessRegistry.RegisterAddressResolver(func(pid *actor.PID) (actor.Process, bool) {
@@ -192,16 +214,128 @@ func newEnv() *env {
 		}
 	}), "logic-1")
 
-	e.svc = &centerSvc{NodeService: service.NewService()}
-	e.svc.Service.InitReqReceiver(e.svc)
-	props, _ := as.NewServicePropsWithNewScheDisp(func() actor.Actor { return e.svc }, "center-1")
+	// the requester: records every ServiceResponse the centre sends back
+	e.client, _ = sys.Root.SpawnNamed(actor.PropsFromFunc(func(ctx actor.Context) {
+		if res, ok := ctx.Message().(*messages.ServiceResponse); ok {
+			e.onResponse(res)
+		}
+	}), "client-1")
+
+	// the centre: the real handler.Service, built and started the way node/servicebuilder does
+	e.svc = handler.NewService()
+	props, _ := service.NewServiceWithDispatcher(func() actor.Actor { return e.svc }, "center-1", "center.remote")
 	pid, err := sys.Root.SpawnNamed(props, "center-1")
 	if err != nil {
 		panic(err)
 	}
 	e.pid = pid
 	e.wait()
+	// StartServiceCmd: names the service, gives it its logger and runs handler.Service.Start, which calls
+	// PlayerMgr.Start (1 s update timer).  The timers registered here belong to the first PlayerMgr; they are
+	// cancelled at the first reset like those of every later `reset timer=1`.
+	var before map[cetimer.IdType]bool
+	var okB bool
+	e.onSvc(func() { before, okB = timerSet(e.svc.GetRunService().GetTimerMgr()) })
+	service.StartNodeService(sys.Root, pid, "center-1", &config.ServiceInfo{Type: "center"})
+	e.wait()
+	e.onSvc(func() {
+		if after, ok := timerSet(e.svc.GetRunService().GetTimerMgr()); ok && okB {
+			for id := range after {
+				if !before[id] {
+					e.timerIds = append(e.timerIds, id)
+				}
+			}
+		}
+	})
 	return e
+}
+
+// onResponse: a ServiceResponse arrived at the requester.  Login: one acknowledgement per response
+// (a request answered twice shows up as two).  Other requests: the answer becomes `ret`.
+func (e *env) onResponse(res *messages.ServiceResponse) {
+	e.mu.Lock()
+	defer e.mu.Unlock()
+	ri := e.reqs[res.ReqId]
+	if ri == nil || ri.caseNo != e.caseNo {
+		return
+	}
+	ri.nres++
+	var m interface{}
+	good := res.ErrCode == 0
+	if good && res.Type != "" {
+		func() {
+			defer func() {
+				if r := recover(); r != nil {
+					good = false
+				}
+			}()
+			var err error
+			if m, err = remote.Deserialize(res.Body, res.Type, as.DefaultSerializeId); err != nil {
+				good = false
+			}
+		}()
+	}
+	if ri.kind == "login" {
+		id := fmt.Sprintf("%d.%d", ri.uid, ri.k8)
+		delete(e.open[ri.uid], ri.k8)
+		if a, ok := m.(*mymsg.CenterReqLoginAck); ok && good {
+			e.acks = append(e.acks, fmt.Sprintf("%s:%d:%s", id, ri.n, codeName(a)))
+		} else {
+			e.acks = append(e.acks, fmt.Sprintf("%s:%d:err", id, ri.n))
+		}
+		return
+	}
+	if ri.nres > 1 {
+		e.ret = "twice"
+		return
+	}
+	e.ret = ackRet(ri.kind, m, good)
+}
+
+// ackRet: the centre's answer to a non-login request as the caller reads it.  Requests that ask for a
+// transaction (logout, line switch begin / end) are granted (t) or refused (f) by the NormalAck code;
+// notifications are acknowledged with Succ (-).
+func ackRet(kind string, m interface{}, good bool) string {
+	if !good {
+		return "err"
+	}
+	a, isAck := m.(*mymsg.NormalAck)
+	if m == nil && kind == "closed" {
+		return "-" // the close report is acknowledged without a body
+	}
+	if !isAck {
+		return "badack"
+	}
+	switch define.ErrorCode(a.Code) {
+	case define.Succ:
+		switch kind {
+		case "logoutreq", "swbegin", "swend":
+			return "t"
+		}
+		return "-"
+	case define.ErrFaild:
+		switch kind {
+		case "logoutreq", "swbegin", "swend":
+			return "f"
+		}
+	}
+	return fmt.Sprintf("code%d", a.Code)
+}
+
+// request: one real ServiceRequest to the centre's remote API, then quiescence
+func (e *env) request(route string, msg interface{}, ri *reqInfo) {
+	b, tn, err := remote.Serialize(msg, as.DefaultSerializeId)
+	if err != nil {
+		panic(err)
+	}
+	e.mu.Lock()
+	e.nextReq++
+	id := e.nextReq
+	ri.caseNo = e.caseNo
+	e.reqs[id] = ri
+	e.mu.Unlock()
+	e.system.Root.Send(e.pid, &messages.ServiceRequest{Sender: e.client, ReqId: id, Route: "centerremote." + route, Type: tn, Body: b})
+	e.wait()
 }
 
 func deserialize(req *messages.ServiceRequest) (interface{}, error) {
@@ -226,7 +360,8 @@ func (e *env) reset(withTimer bool) {
 			tm.Cancel(id)
 		}
 		e.timerIds = nil
-		e.mgr = center.NewPlayerMgr(e.svc.NodeService)
+		e.svc.Mgr = center.NewPlayerMgr(e.svc.NodeService)
+		e.mgr = e.svc.Mgr
 		e.timer = false
 		if before, ok := timerSet(tm); withTimer && ok {
 			e.mgr.Start()
@@ -241,6 +376,7 @@ func (e *env) reset(withTimer bool) {
 	})
 	e.mu.Lock()
 	e.kicks, e.offs, e.acks = nil, nil, nil
+	e.reqs = map[int32]*reqInfo{}
 	e.seq = [nAccts + 2]int{}
 	for i := range e.open {
 		e.open[i] = map[int]int64{}
@@ -583,8 +719,8 @@ func (e *env) exec(op string) string {
 	}
 	e.mu.Lock()
 	e.kicks, e.offs, e.acks = nil, nil, nil
+	e.ret = "noack"
 	e.mu.Unlock()
-	ret := "-"
 	panicked := false
 	call := func(f func()) {
 		e.onSvc(func() {
@@ -596,12 +732,8 @@ func (e *env) exec(op string) string {
 			f()
 		})
 	}
-	b2s := func(b bool) string {
-		if b {
-			return "t"
-		}
-		return "f"
-	}
+	// the protocol's operations: real requests to the centre's remote API (what gate / logic send)
+	asked := true
 	switch ws[0] {
 	case "login":
 		for _, key := range []string{"f", "n", "k"} {
@@ -612,46 +744,39 @@ func (e *env) exec(op string) string {
 		f, n, k := hx.KVInt(ws, "f"), uint32(hx.KVInt(ws, "n")), hx.KVInt(ws, "k") == 1
 		e.seq[uid]++
 		k8 := e.seq[uid]
-		id := fmt.Sprintf("%d.%d", uid, k8)
-		cn := e.caseNo
 		e.mu.Lock()
 		e.open[uid][k8] = common.NowMs()
 		e.mu.Unlock()
-		cb := func(err error, r interface{}) {
-			e.mu.Lock()
-			defer e.mu.Unlock()
-			if cn != e.caseNo {
-				return
-			}
-			delete(e.open[uid], k8)
-			if a, ok := r.(*mymsg.CenterReqLoginAck); ok && err == nil {
-				e.acks = append(e.acks, fmt.Sprintf("%s:%d:%s", id, n, codeName(a)))
-			} else {
-				e.acks = append(e.acks, fmt.Sprintf("%s:%d:err", id, n))
-			}
-		}
-		call(func() { e.mgr.ReqLogin(uid, frontName(f), n, k, cb) })
+		e.request("reqlogin", &mymsg.CenterReqLogin{UId: uid, ServerId: frontName(f), NetId: n, KickPrev: k},
+			&reqInfo{kind: "login", uid: uid, k8: k8, n: n})
 	case "closed":
-		call(func() { e.mgr.OnClientSessionClosed(uid) })
+		e.request("onsessionclose", &mymsg.CenterOnSessionClose{UId: uid}, &reqInfo{kind: ws[0], uid: uid})
 	case "logined":
 		lg := "logic-1"
 		if hx.KVInt(ws, "lg") != 1 {
 			lg = "logic-x"
 		}
-		call(func() { e.mgr.OnLogicLogined(uid, lg) })
+		e.request("onlogiclogined", &mymsg.OnLogicLogined{UId: uid, LogicId: lg}, &reqInfo{kind: ws[0], uid: uid})
 	case "reonline":
-		call(func() { e.mgr.OnLogicReOnline(uid) })
+		e.request("onlogicreonline", &mymsg.OnLogicReOnline{UId: uid}, &reqInfo{kind: ws[0], uid: uid})
 	case "logoutreq":
-		call(func() { ret = b2s(e.mgr.ReqLogout(uid)) })
+		e.request("reqlogout", &mymsg.ReqLogout{UId: uid}, &reqInfo{kind: ws[0], uid: uid})
 	case "logoutdone":
-		call(func() { e.mgr.OnLogicLogout(uid) })
+		e.request("onlogout", &mymsg.OnLogout{UId: uid}, &reqInfo{kind: ws[0], uid: uid})
 	case "abnormal":
-		call(func() { e.mgr.OnLogicAbnormalLogout(uid) })
+		e.request("onabnormallogout", &mymsg.OnLogout{UId: uid}, &reqInfo{kind: ws[0], uid: uid})
 	case "swbegin":
-		call(func() { ret = b2s(e.mgr.ReqSwitchLine(uid)) })
+		e.request("reqswitchline", &mymsg.ReqSwitchLine{UId: uid}, &reqInfo{kind: ws[0], uid: uid})
 	case "swend":
-		ok := hx.KVInt(ws, "ok") == 1
-		call(func() { ret = b2s(e.mgr.OnSwitchLineEnd(uid, ok)) })
+		e.request("onswitchlineend", &mymsg.OnSwitchLineEnd{UId: uid, Succ: hx.KVInt(ws, "ok") == 1}, &reqInfo{kind: ws[0], uid: uid})
+	default:
+		asked = false
+	}
+	if asked && ws[0] == "login" {
+		asked = false // answered through the acknowledgement list, possibly in a later operation
+	}
+	switch ws[0] {
+	case "login", "closed", "logined", "reonline", "logoutreq", "logoutdone", "abnormal", "swbegin", "swend":
 	case "offreply":
 		var p *pendingOff
 		e.mu.Lock()
@@ -709,6 +834,10 @@ func (e *env) exec(op string) string {
 	offs := make([]string, len(e.offs))
 	for i, u := range e.offs {
 		offs[i] = fmt.Sprint(u)
+	}
+	ret := "-"
+	if asked {
+		ret = e.ret
 	}
 	obs := fmt.Sprintf("ret=%s acks=%s kicks=%s offs=%s", ret, strings.Join(e.acks, ","), strings.Join(e.kicks, ","), strings.Join(offs, ","))
 	e.mu.Unlock()
